@@ -133,8 +133,10 @@ REGISTRY["C17"] = {
 
 REGISTRY["C04"] = {
     "engine": "engine_ser",
-    "theorems": [(A + "SerSchema", "Api.C04_keys"), (A + "SerSchema", "Api.omitted_skippable"), (A + "SerSchema", "Api.serFields_props")],
-    "partial": "emitted keys = aliases of the non-omitted fields in field order, and the omission rule against the 2^4 flag combinations, are proved; "
+    "theorems": [(A + "SerSchema", "Api.C04_keys"), (A + "SerSchema", "Api.omitted_skippable"), (A + "SerSchema", "Api.serFields_props"),
+                 (A + "SerJsonThm", "Api.C04_json_only"), (A + "SerJsonThm", "Api.ser_pure"), (A + "SerJsonThm", "Api.C04_nonstring_keys_counterexample")],
+    "partial": "on well-typed values of the fragment (primitives, lists, tuples, NewTypes, dataclasses at any depth) serialize returns and its result is JSON-only "
+               "(C04_json_only); emitted keys = aliases of the non-omitted fields in field order, and the omission rule against the 2^4 flag combinations, are proved; "
                "the full image (conversions, serialized methods, flattened fields, fall_back_on_any, check_type) is decided by the correspondence with the "
                "semantic model of serialization and by the checks on the real code",
     "assumptions": MODEL_ASSUMPTIONS,
